@@ -1,6 +1,7 @@
 import AdaVerif.Lemmas.Scheme
 import AdaVerif.Spec.Setters
 import AdaVerif.Lemmas.PathMain
+import AdaVerif.Lemmas.SimpleAbs
 /-
 C01 — Parsing conforms to the WHATWG URL Standard for every input and base.
 
@@ -40,6 +41,22 @@ theorem shorten_path_is_shorten (scheme : Bytes) (ty : Nat) (hty : (ty == 6) = (
 theorem dot_segment_tests (s : Bytes) :
     PathPrepared.isDoubleDot s = Spec.isDoubleDot s ∧ PathPrepared.isSingleDot s = Spec.isSingleDot s :=
   ⟨PP.doubleDot_eq s, PP.singleDot_eq s⟩
+
+/-- **the parser's fast path is sound**: `parser::try_parse_simple_absolute` (the single-pass shortcut for absolute
+    http(s) URLs in normal form, `Model/SimpleAbs.lean`, run against both instantiations on every check) accepts only
+    inputs the Standard's parser accepts, and the fields it writes - scheme, lower-cased host, path (a "/" when the input
+    has none), query, fragment - are those of the Standard's record: the two class tables admit no byte of any
+    percent-encode set, the host test excludes IPv4 spellings and ACE labels, the dot-segment scan excludes every "." and
+    ".." segment, so every state of the Standard's parser leaves the text as it is (`Lemmas/SimpleAbs.lean`, 800 lines).
+    Whatever the IDNA function: the hosts it accepts never reach it. -/
+theorem fast_path_sound (idna : Idna) (input : Bytes) (r : UrlRec.Rec) (h : SimpleAbs.trySimple input = some r) :
+    ∃ u, parse idna input none = some u ∧ UR.recOf u = r :=
+  SA.trySimple_sound idna input r h
+
+/-- worked instance: upper-case host, no path -/
+example : (SimpleAbs.trySimple (ofStr "https://EXAMPLE.com?q#f")).map (fun r => (r.host, r.path, r.query, r.hash)) =
+    some (some (ofStr "example.com"), ofStr "/", some (ofStr "q"), some (ofStr "f")) := by decide +kernel
+example : SimpleAbs.trySimple (ofStr "http://example.com/a/../b") = none := by decide +kernel
 
 /-- the hypotheses are satisfiable: the three scheme classes -/
 example : PP.TyOf bFile 6 := ⟨by decide, by decide⟩
